@@ -739,9 +739,21 @@ func (w *Wallet) swapToTrusted(proofs cashu.Proofs, mint *walletMint) (uint64, e
 	// if proofs are P2PK locked and sig all, add signatures to swap them first and then melt
 	nut10Secret, err := nut10.DeserializeSecret(proofs[0].Secret)
 	if err == nil && nut10Secret.Kind == nut10.P2PK && nut11.IsSigAll(nut10Secret) {
-		req, err := w.createSwapRequest(proofs, mint)
+		// the proofs from this swap are melted right after, so use random secrets for the outputs.
+		// Generating them from the keyset counter (which is not incremented after this swap
+		// and does not exist if the mint is not trusted) would reuse already signed outputs later.
+		fees := feesForProofs(proofs, mint)
+		split := w.splitWalletTarget(proofs.Amount()-uint64(fees), mint.mintURL)
+		outputs, secrets, rs, err := w.createBlindedMessages(split, mint.activeKeyset.Id, nil)
 		if err != nil {
 			return 0, fmt.Errorf("could not create swap request: %v", err)
+		}
+		req := swapRequestPayload{
+			inputs:  proofs,
+			outputs: outputs,
+			secrets: secrets,
+			rs:      rs,
+			keyset:  &mint.activeKeyset,
 		}
 		req.outputs, err = nut11.AddSignatureToOutputs(req.outputs, w.privateKey)
 		if err != nil {
